@@ -17,11 +17,16 @@ Azs == { <<1, 0, 1>>, <<0, 1, 1>>, <<-1, 0, 1>>, <<4, 3, 5>>, <<3, -4, 5>>, <<-1
 \* treat a corner level with the point consistently whichever corner the polygon is listed from
 LevelTargets == { <<x, y>> : x \in {-6, -2, 0, 2, 3, 4, 6, 8, 10, 12, 16}, y \in {0, 4, 6, 8, 12} }
 Shift(p, s) == [i \in 1..Len(p) |-> p[((i + s - 1) % Len(p)) + 1]]
+\* the same outline listed clockwise (what is hit does not depend on the sense in which the corners are listed)
+Rev(p) == [i \in 1..Len(p) |-> p[Len(p) + 1 - i]]
 VARIABLE c
 Init == \/ c \in [poly : { Polys[i] : i \in DOMAIN Polys }, q : Targets, D : Dirs, k : Ks, tilt : Tilts, az : Azs]
         \/ \E i \in DOMAIN Polys : \E s \in 0..(Len(Polys[i]) - 1) :
               c \in [poly : { Shift(Polys[i], s) }, q : LevelTargets, D : { <<0, 1, 0>>, <<0, 0, 1>>, <<-2, 1, 3>> }, k : {1},
                      tilt : { <<0, 1, 1>>, <<1, 0, 1>>, <<4, 3, 5>> }, az : { <<1, 0, 1>>, <<3, -4, 5>> }]
+        \/ \E i \in DOMAIN Polys : \E s \in {0, 1} :
+              c \in [poly : { Shift(Rev(Polys[i]), s) }, q : Targets, D : Dirs, k : {-2, 1},
+                     tilt : { <<0, 1, 1>>, <<4, 3, 5>>, <<-1, 0, 1>> }, az : { <<1, 0, 1>>, <<3, -4, 5>> }]
 Next == UNCHANGED c
 Spec == Init /\ [][Next]_c
 InvEmit == OnOutline(c.q, c.poly) \/ PrintT(<<"CASE", ToJson([c |-> c, hit |-> Hit(c), parallel |-> Dot(c.D, Normal(c.tilt, c.az)) = 0])>>)
